@@ -152,6 +152,19 @@ def install(I):
             outs.append(Outcome(s2, 'ret', ok(UNIT) if succ else err(Agg('SendError', (args[1],)))))
         return outs
 
+    @M(r'oneshot::Sender::<.*>::send$', 'oneshot::Sender::send')
+    def m_os_send(I, st, f, args, fr):
+        o = args[0]
+        if not isinstance(o, Obj):
+            raise Unmodelled('oneshot send on %r' % (o,))
+        h = I.hooks.get('oneshot_ident')
+        ident = h(I, st, o, args[1]) if h else 1
+        res = I.shared_op(st, o, 'send', objects.oneshot_send(ident), {'ok': 'bool'}, label='%s.send' % o.oid)
+        outs = []
+        for s2, okk in branch(I, st, res['ok']):
+            outs.append(Outcome(s2, 'ret', ok(UNIT) if okk else err(args[1])))
+        return outs
+
     @M(r'^<SendError<.*> as Into<.*>>::into$|^<.* as From<SendError<.*>>>::from$', 'SendError -> MessagingErr')
     def m_senderror_into(I, st, f, args, fr):
         v = args[0]
